@@ -164,7 +164,7 @@ def parse_unit(path, _included=None):
             elif d == "hint":
                 if cur is None:
                     raise UnitError(f"{path}:{ln_no}: //@ hint outside extract fn")
-                m = re.match(r'hint\s+(loopbefore|loopafter|loopstart|loopend|before|after|start|end)\s*(?:"(.*)")?\s*(?:#?(\d+))?', body)
+                m = re.match(r'hint\s+(loopbefore|loopafter|loopstart|loopend|before|after|start|end|tail)\s*(?:"(.*)")?\s*(?:#?(\d+))?', body)
                 if not m:
                     raise UnitError(f"{path}:{ln_no}: bad hint directive")
                 h = {"where": m.group(1), "anchor": m.group(2), "nth": int(m.group(3) or 0), "text": []}
@@ -291,6 +291,17 @@ def splice_body(body, ex, item):
         elif h["where"] == "end":
             i = body.rindex("}")
             body = body[:i] + "\n" + txt + "\n" + body[i:]
+        elif h["where"] == "tail":
+            # before a one-line tail expression (the value of the function)
+            lines = body.split("\n")
+            k = len(lines) - 1
+            while k >= 0 and lines[k].strip() in ("", "}"):
+                k -= 1
+            if k < 0 or lines[k].rstrip().endswith((";", "}", "{")):
+                ex.setdefault("skipped_hints", []).append("tail")
+                continue
+            lines.insert(k, txt)
+            body = "\n".join(lines)
         else:
             lines = body.split("\n")
             anchor = re.sub(r"\s+", "", h["anchor"])
